@@ -33,6 +33,8 @@ ROOT = Path(__file__).resolve().parent.parent.parent
 MARK = "verif.io/m"
 _call_var: contextvars.ContextVar[dict | None] = contextvars.ContextVar("verif_c08_call", default=None)
 _body_var: contextvars.ContextVar[Any] = contextvars.ContextVar("verif_c08_body", default=None)
+_entry_var: contextvars.ContextVar[Any] = contextvars.ContextVar("verif_c08_entry", default=None)
+OWN = "kopf.zalando.org/KopfFinalizerMarker"
 
 
 # ----------------------------------------------------------------------------------------------
@@ -224,11 +226,28 @@ def instrumented(sim: Any, pcalls: list, carried: list) -> Iterator[None]:
             call["final_raw"] = get(name)
             call["server_after"] = {"clock": c.rv, "uids": c.uid_counter, "obj": c08.abs_obj(call["final_raw"])}
 
+    orig_pre = processing.process_resource_event
+
+    async def process_resource_event(**kw: Any) -> Any:
+        # what the per-object memory holds when the cycle starts
+        want: list = []
+        try:
+            uid = kw["raw_event"]["object"].get("metadata", {}).get("uid") or ""
+            m = kw["memories"]._items.get(uid)
+            if m is not None and m.remaining_patch is not None:
+                want = list(m.remaining_patch.fns)
+        except Exception:  # noqa: BLE001
+            pass
+        tok = _entry_var.set(want)
+        try:
+            return await orig_pre(**kw)
+        finally:
+            _entry_var.reset(tok)
+
     async def process_resource_causes(**kw: Any) -> Any:
         if getattr(kw.get("resource"), "plural", None) == kex.plural:
-            memory, patch = kw["memory"], kw["patch"]
-            rem = memory.remaining_patch
-            want = [] if rem is None else list(rem.fns)
+            patch = kw["patch"]
+            want = list(_entry_var.get() or [])
             have = list(patch.fns)
             carried.append({"t": sim.now(), "uid": kw["body"].get("metadata", {}).get("uid"),
                             "remaining": [_fn_desc(f) for f in want], "patch_fns": [_fn_desc(f) for f in have],
@@ -242,6 +261,7 @@ def instrumented(sim: Any, pcalls: list, carried: list) -> Iterator[None]:
     patching.patch_obj = patch_obj  # type: ignore[assignment]
     application.patch_and_check = patch_and_check  # type: ignore[assignment]
     processing.process_resource_causes = process_resource_causes  # type: ignore[assignment]
+    processing.process_resource_event = process_resource_event  # type: ignore[assignment]
     try:
         yield
     finally:
@@ -249,6 +269,7 @@ def instrumented(sim: Any, pcalls: list, carried: list) -> Iterator[None]:
         patching.patch_obj = orig_patch_obj  # type: ignore[assignment]
         application.patch_and_check = orig_pac  # type: ignore[assignment]
         processing.process_resource_causes = orig_prc  # type: ignore[assignment]
+        processing.process_resource_event = orig_pre  # type: ignore[assignment]
 
 
 def _finish_call(call: dict) -> dict:
@@ -424,21 +445,30 @@ def gen_scenario(rng: Any, i: int) -> dict:
                                    "script": [["sleep", rng.choice([0.25, 0.5]), ["ok", {"n": 1}]]], "default": ["ok", {"n": 2}]})
         else:
             sc["c08_handlers"].append({"kind": "timer", "id": "tick", "opts": {"interval": 1.0}, "sleep": 0.5,
-                                       "patch": {"status": {"tick": "t"}}, "fns": [["block", MARK]] if rng.random() < 0.5 else []})
+                                       "patch": {"status": {"tick": "t"}}, "fns": [["ublock", MARK]] if rng.random() < 0.5 else []})
         sc["timeline"].append([1.0, "create", "a", body])
         sc["timeline"].append([_t(rng.uniform(1.5, 4.0)), "recreate", "a", {"spec": {"x": 1}}])
         sc["end"] = 12.0
     if kind in ("conflict", "mixed"):
-        fns = rng.choice([[["block", MARK]], [["block", MARK], ["setStatus", "observed", 1]], [["setStatus", "observed", 2]],
-                          [["block", MARK], ["allow", "never.io/x"]]])
+        fns = rng.choice([[["ublock", MARK]], [["ublock", MARK], ["setStatus", "observed", 1]], [["setStatus", "observed", 2]],
+                          [["ublock", MARK], ["uallow", "never.io/x"]]])
         sc["c08_handlers"].append({"kind": "create", "id": "cf", "sleep": rng.choice([0, 0, 0.5]),
                                    "patch": rng.choice([{}, {"status": {"cf": "seen"}}, {"metadata": {"annotations": {"cf": "1"}}}]),
                                    "fns": fns, "result": rng.choice([None, {"ok": 1}])})
         if kind == "conflict":
             sc["timeline"].append([1.0, "create", "a", body])
-        how = rng.choice(["slip-edit", "slip-edit", "slip-fin", "fault", "slip-recreate", "slip-delete", "none"])
+        how = rng.choice(["slip-edit", "slip-edit", "slip-fin", "fault", "slip-recreate", "slip-delete", "none",
+                          "slip-edit-then-error", "slip-edit-then-error"])
         jk = rng.choice(["jsonBody", "jsonBody", "jsonStatus"]) if sc["status_subresource"] else "jsonBody"
-        if how == "slip-edit":
+        if how == "slip-edit-then-error":
+            # conflict, then the cycle that carries the transformation fails on an API error, then a later event
+            sc["c08_slips"].append({"kind": "jsonBody", "nth": 1, "op": ["edit", {"spec": {"x": 50}}]})
+            sc["faults"].append({"match": {"method": "PATCH", "path_contains": "kopfexamples/a", "ctype": "json-patch", "nth": 2},
+                                 "fault": ["status", rng.choice([409, 403, 400])]})
+            sc["timeline"].append([rng.choice([4.0, 6.0]), "edit", "a", {"metadata": {"labels": {"again": "1"}}}])
+            sc["timeline"].append([12.0, "edit", "a", {"metadata": {"labels": {"again": "2"}}}])
+            sc["end"] = 40.0
+        elif how == "slip-edit":
             sc["c08_slips"].append({"kind": jk, "nth": rng.choice([1, 1, 2]), "op": ["edit", {"spec": {"x": 50}}]})
         elif how == "slip-fin":
             sc["c08_slips"].append({"kind": jk, "nth": 1, "op": ["addFin", ["late.io/f"]]})
@@ -515,7 +545,7 @@ def oracle(ctx: Ctx, sc: dict, tr: dict) -> None:
             continue
         fins = final["metadata"].get("finalizers", [])
         for d in hc["fns"]:
-            if d[0] == "block":
+            if d[0] == "ublock":
                 if fins.count(d[1]) != 1:
                     ctx.oracle_fail(f"handler {hc['id']} queued {d} for {uid}; at the end the finalizer occurs {fins.count(d[1])} times in {fins}",
                                     rep, SIG_LOST)
@@ -526,6 +556,62 @@ def oracle(ctx: Ctx, sc: dict, tr: dict) -> None:
                     ctx.oracle_fail(f"handler {hc['id']} queued {d} for {uid}; final status is {final.get('status')}", rep, SIG_LOST)
                 else:
                     ctx.count("closed_fn_effect", "applied-once")
+
+
+SIG_FIN = {"site": "processing.process_resource_causes",
+           "shape": "eventual own-finalizer state differs from the decision on the final state"}
+
+
+def oracle_own_finalizer(ctx: Ctx, sc: dict, tr: dict) -> None:
+    """The framework's own finalizer edits are re-decided every cycle, so after a conflict their effect
+    shows in the eventual state: a live object carries the finalizer exactly once iff something requires
+    it (a mandatory deletion handler, a daemon or a timer); an object marked for deletion is released."""
+    hs = list(sc.get("handlers", [])) + list(sc.get("c08_handlers", []))
+    if any(h.get("opts", {}).get("labels") or h.get("opts", {}).get("annotations") or h.get("opts", {}).get("when") or h.get("opts", {}).get("field") for h in hs):
+        return          # filters: C15's subject
+    requires = any((h["kind"] == "delete" and not h.get("opts", {}).get("optional")) or h["kind"] in ("daemon", "timer") for h in hs)
+    has_changing = any(h["kind"] in ("create", "update", "delete", "resume", "daemon", "timer", "event", "field") for h in hs)
+    if not has_changing:
+        return
+    last: dict[str, dict] = {}
+    for cy in tr["cycles"]:
+        last[cy["uid"]] = cy
+    rep = {"kind": "closed-loop", "scenario": sc}
+    end_t = max((m["t"] for m in tr["marks"] if m["what"] == "end"), default=None)
+    for k, o in tr["final_objects"].items():
+        if "kopfexamples" not in k:
+            continue
+        uid = o["metadata"]["uid"]
+        cy = last.get(uid)
+        if cy is None or cy.get("error") or (cy.get("mem_after") or {}).get("remaining_patch") is not None \
+                or (cy.get("mem_after") or {}).get("throttled"):
+            ctx.count("closed_own_finalizer", "pending")
+            continue
+        hist = [v for v in tr["history"].get(k, []) if v["uid"] == uid]
+        if end_t is not None and hist and end_t - hist[-1]["t"] < 4.0:
+            ctx.count("closed_own_finalizer", "not-quiescent")
+            continue
+        if any(hc.get("uid") == uid and hc.get("outcome") not in ("ok", "obeyed-flag", "cancelled", "exited-on-its-own", None) for hc in tr["handler_calls"][-3:]):
+            pass
+        fins = o["metadata"].get("finalizers", [])
+        marked = bool(o["metadata"].get("deletionTimestamp"))
+        n = fins.count(OWN)
+        if marked:
+            if n != 0:
+                # still held: legitimate only while a deletion handler has not succeeded yet
+                done = any(hc.get("uid") == uid and hc.get("kind") == "delete" and hc.get("outcome") == "ok" for hc in tr["handler_calls"])
+                has_del = any(h["kind"] == "delete" for h in hs)
+                if done or not has_del:
+                    ctx.oracle_fail(f"{uid} is marked for deletion, its handlers are done, yet the own finalizer is still there: {fins}", rep, SIG_FIN)
+                else:
+                    ctx.count("closed_own_finalizer", "held-handler-unfinished")
+            else:
+                ctx.count("closed_own_finalizer", "released")
+        else:
+            if n != (1 if requires else 0):
+                ctx.oracle_fail(f"{uid}: own finalizer occurs {n} times in {fins}; required={requires}", rep, SIG_FIN)
+            else:
+                ctx.count("closed_own_finalizer", "present" if requires else "absent")
 
 
 def model_requests(tr: dict) -> list[tuple[list, dict]]:
@@ -563,6 +649,7 @@ def evaluate(ctx: Ctx, scenarios: list[dict], tie: bool = True) -> None:
             raise RuntimeError(f"closed-loop simulation error: {tr['sim_error']}")
         ctx.traces += 1
         oracle(ctx, sc, tr)
+        oracle_own_finalizer(ctx, sc, tr)
         ctx.count("closed_scenarios", sc.get("c08_kind", "corpus"))
         landed = 0
         for o in tr["patch_calls"]:
